@@ -733,7 +733,7 @@ def run_shard(ctx):
                   lambda k, ti=ti, seqs=seqs: {'table3': ti, 'seq': seqs[k], 'kind': 'enum32'})
             ctx.count('tables32')
     # ---- random richer machines ----
-    n = 120 if quick else 4000
+    n = 120 if quick else 8000
     done = 0
     while done < n:
         spec, evs = random_spec(rng)
